@@ -18,4 +18,8 @@ theorem ID_Less : Generated.fp_drpcwire_packet_ID_Less = Expected.fp_drpcwire_pa
 /-- the early-overflow slack of the model is the source's `maxFrameOverhead` -/
 theorem maxFrameOverhead : Generated.maxFrameOverhead = maxHeader := by decide
 
+/-! constructors, accessors and small helpers -/
+theorem x_drpcwire_reader_NewReader : Generated.fp_drpcwire_reader_NewReader = Expected.fp_drpcwire_reader_NewReader := by decide
+theorem x_drpcwire_reader_Reader_ReadPacket : Generated.fp_drpcwire_reader_Reader_ReadPacket = Expected.fp_drpcwire_reader_Reader_ReadPacket := by decide
+
 end Drpc.Tie.C09
